@@ -537,14 +537,20 @@ class RefParser:
         seps = []
         p = pos
         n = 0
+        dangling_end = None
         while True:
             try:
                 p2 = p
                 sp = []
                 if e.sep is not None and n > 0:
                     p2, sp = self.ex(e.sep, p2, c)
+            except Fail:
+                break
+            try:
                 p3, tr = self.ex(rhs, p2, c)
             except Fail:
+                if 'dangling-separator' in self.emulate and sp:
+                    dangling_end = sp[-1].end
                 break
             if p3 == p:
                 break
@@ -556,7 +562,8 @@ class RefParser:
             raise Fail()
         if n == 0:
             return p, []
-        a = Asg(e.attr, e.op, items, objref, items[0][0].start if items[0] else pos, p)
+        a = Asg(e.attr, e.op, items, objref, items[0][0].start if items[0] else pos,
+                dangling_end if dangling_end is not None else p)
         a.seps = seps
         return p, [a]
 
